@@ -159,7 +159,23 @@ pub fn lib_keys(d: &BigUint, how: u64, p: &mut Prng) -> Option<(Sm2PublicKey, Sm
         }
         _ => {
             let pt = r2::mul(d, &r2::g())?;
-            let lam = rand_scalar(p, &r2::curve().p);
+            // every fourth such key: a Z whose STORED limbs are a boundary word (the integer 1, Montgomery one with limb 1
+            // or limb 3 changed, a unit limb) instead of a random Z
+            let mont_one = r2::to_limbs(&((BigUint::one() << 256) - &r2::curve().p));
+            let lam = if (how / 3) % 4 == 1 {
+                let w = p.next();
+                let zl: [u64; 4] = match (how / 12) % 5 {
+                    0 => [1, 0, 0, 0],
+                    1 => [mont_one[0], w, mont_one[2], mont_one[3]],
+                    2 => [mont_one[0], mont_one[1], mont_one[2], mont_one[3] ^ (1 << (w % 32))],
+                    3 => [0, 0, 1, 0],
+                    _ => [mont_one[0].wrapping_add(1), mont_one[1], mont_one[2], mont_one[3]],
+                };
+                let l = r2::from_mont_p(&zl);
+                if l.is_zero() || r2::from_limbs(&zl) >= r2::curve().p { rand_scalar(p, &r2::curve().p) } else { l }
+            } else {
+                rand_scalar(p, &r2::curve().p)
+            };
             let pk = Sm2PublicKey { point: r2::to_lib_point(&pt, &lam) };
             Some((pk, Sm2PrivateKey { d: r2::to_limbs(d), public_key: pk }))
         }
